@@ -10,7 +10,8 @@ Open Scope Z_scope.
 Definition std_entity : gentity :=
   {| e_key := "household"%string;
      e_roles := [ {| r_key := "parent"%string; r_max := Some 2%nat; r_subs := []; r_top := true |};
-                  {| r_key := "child"%string; r_max := None; r_subs := []; r_top := true |} ];
+                  {| r_key := "child"%string; r_max := None; r_subs := []; r_top := true |};
+                  {| r_key := "head"%string; r_max := Some 1%nat; r_subs := []; r_top := true |} ];
      e_containing := [] |}.
 
 Definition mk_pop (count : nat) (ids roles : list nat) : popu :=
